@@ -7,6 +7,8 @@ import (
 	"github.com/AdguardTeam/urlfilter/rules"
 	"io"
 	"net/http"
+	"os"
+	"path/filepath"
 	"strconv"
 	"strings"
 	"time"
@@ -256,6 +258,23 @@ func c20Run(c *core.Ctx, idx int) {
 	// pages of the same and of other hosts, with verdicts that switch different
 	// cosmetic options off (the tag carries them).
 	srv := proxy.VerifNewServer()
+	if c.Rng.Intn(2) == 0 {
+		// The proxy runs with a filtering engine; what its lists say about a
+		// page (nothing, generic rules only, rules for the page's host, rules
+		// for another host) has no say in how the tag is inserted.
+		if dir, derr := os.MkdirTemp(filepath.Join(c.Env.VerifDir, ".work"), "c20f."); derr == nil {
+			defer os.RemoveAll(dir)
+			fn := filepath.Join(dir, "filter.txt")
+			content := []string{"", "! nothing but a comment\n", "##.generic-banner\n", "example.org##.banner\nexample.org#@#.generic-banner\n", "other.example.net##.x\n||ads.example^\n",
+				"||example.org^$elemhide\n##.generic-banner\n", "sub.example.org,xn--bcher-kva.example##.y\n@@||example.org^$document\n"}[c.Rng.Intn(7)]
+			if os.WriteFile(fn, []byte(content), 0o644) == nil {
+				if s2, serr := proxy.VerifNewServerWithFilters(map[int]string{1: fn}); serr == nil {
+					srv = s2
+					c.Event("cases_on_a_server_with_a_filtering_engine", 1)
+				}
+			}
+		}
+	}
 	for k := 0; k < 4; k++ {
 		pageURL := []string{"http://example.org/index.html", "http://example.org/index.html", "http://example.org/other.html", "https://sub.example.org/", "http://other.example.net/",
 			// Internationalized names the way browsers send them, capitals, a
@@ -472,7 +491,7 @@ func init() {
 		Level: "exploration",
 		Rule: "per case 4 bodies: ASCII, all 256 byte values or mostly high bytes, plain or gzip-encoded, with 0..4 markers (</head, <link, <style, <script in random letter case) whose first occurrence is placed at 0, early, at 16383/16384, straddling the window, beyond it, or where high-byte padding moves the transcoded offset over the window, with near-markers before it (truncated markers and markers with one byte changed in its case bit, high bit or value, e.g. 0x1c for '<'); " +
 			"pages on ASCII, punycode and capitalised hosts, with a port, on an address; " +
-			"oracle on bytes: output == body[:i]+tag+body[i:] when the marker's transcoded offset is inside the window, output == body when no marker starts before byte 16384, either exact form in between; Content-Length == len(output), Content-Encoding removed, tag has the content-script form (hook VerifFilterHTMLCtx: pages fetched with GET, POST or PUT under a live context, one that is already done, or one that ends while the body is read; one server for the four sessions of a case, pages of the same and of other hosts whose verdicts switch different cosmetic options off; the response is attached with Session.SetResponse and declares no charset, utf-8, windows-1251, euc-jp, utf-16, iso-8859-1 or an unknown one; the original body is delivered in pieces of 1 / 13 / 512 / 1460 / 4096 / 16384 bytes or at once, with a known or unknown declared length; the four responses of a case are filtered first and their bodies are read afterwards in another order); non-trivial = body with a marker; distinct by body head, marker offset and encoding",
+			"oracle on bytes: output == body[:i]+tag+body[i:] when the marker's transcoded offset is inside the window, output == body when no marker starts before byte 16384, either exact form in between; Content-Length == len(output), Content-Encoding removed, tag has the content-script form (hook VerifFilterHTMLCtx: pages fetched with GET, POST or PUT under a live context, one that is already done, or one that ends while the body is read; one server for the four sessions of a case (in half of the cases with a filtering engine over a filter file: empty, generic rules, rules for the page's host or for another one), pages of the same and of other hosts whose verdicts switch different cosmetic options off; the response is attached with Session.SetResponse and declares no charset, utf-8, windows-1251, euc-jp, utf-16, iso-8859-1 or an unknown one; the original body is delivered in pieces of 1 / 13 / 512 / 1460 / 4096 / 16384 bytes or at once, with a known or unknown declared length; the four responses of a case are filtered first and their bodies are read afterwards in another order); non-trivial = body with a marker; distinct by body head, marker offset and encoding",
 		Assumptions: []string{
 			"the 16 KiB window is measured by the code on the Latin-1 to UTF-8 transcoded text; between the byte and the transcoded bound either outcome is accepted",
 		},
